@@ -16,7 +16,7 @@ S2 == <<"s2", "">>
 Dom == <<"dom", "">>
 Cfg(ns, rsf, tcp, rna, c, lf, to, search, domain, ndots, usd) ==
     [ns |-> ns, rsf |-> rsf, tcp |-> tcp, rna |-> rna, cache |-> c, life |-> lf, tmo |-> to, qtype |-> "A",
-     search |-> search, domain |-> domain, ndots |-> ndots, usd |-> usd]
+     search |-> search, domain |-> domain, ndots |-> ndots, usd |-> usd, glue |-> "scripted"]
 
 (* one search domain, lifetime 1 s, timeout 1/2 s: the switches *)
 GCfgSwitches == {Cfg(2, rsf, tcp, rna, "none", 16, 8, <<S1>>, Dom, -1, FALSE) : rsf \in BOOLEAN, tcp \in BOOLEAN, rna \in BOOLEAN}
@@ -27,6 +27,8 @@ GCfgOneThree == GCfgOne \cup GCfgThree
 GCfgCache == {Cfg(ns, FALSE, FALSE, rna, c, 16, 8, <<S1>>, Dom, -1, FALSE) : ns \in {1, 2}, rna \in BOOLEAN, c \in {"simple", "lru"}}
 GCfgCache1 == {Cfg(1, FALSE, FALSE, rna, c, 16, 8, <<S1>>, Dom, -1, FALSE) : rna \in BOOLEAN, c \in {"simple", "lru"}}
 GCfgClass == {Cfg(1, FALSE, FALSE, TRUE, c, 16, 8, <<>>, RootName, -1, FALSE) : c \in {"simple", "lru"}}
+(* the resolver's servers are REAL dns.nameserver.Do53Nameserver objects over stubbed transports *)
+GCfgGlue == {[Cfg(2, rsf, tcp, TRUE, "none", 16, 8, <<>>, RootName, -1, FALSE) EXCEPT !.glue = "do53"] : rsf \in BOOLEAN, tcp \in BOOLEAN}
 GCfgClock == {Cfg(2, TRUE, FALSE, TRUE, "none", 16, 8, <<>>, RootName, -1, FALSE)}
 (* search-list / ndots shapes *)
 GCfgSearch == {Cfg(1, FALSE, FALSE, TRUE, "none", 16, 8, sl, dm, nd, usd) :
@@ -57,6 +59,9 @@ GOutNx(q, qt) == NxSmall(q, qt) \cup {Exc("Timeout")}
 GOutCache(q, qt) == {Exc("Timeout"), Exc("FormError")} \cup PosSmall(q, qt) \cup NoDataSmall(q, qt) \cup NxSmall(q, qt)
                     \cup {Msg("NOERROR", Chain(q, qt, 0, <<5>>, 0), <<>>), Msg("NOERROR", <<>>, <<>>)}
 GOutClass(q, qt) == PosSmall(q, qt) \cup NoDataSmall(q, qt) \cup NxSmall(q, qt)
+(* what a transport can deliver: a reply with TC raises Truncated only from UDP (a stream transport returns it) *)
+GOutGlue(q, qt) == {Exc("Timeout"), Exc("FormError"), Exc("OSError"), Msg("SERVFAIL", <<>>, <<>>)} \cup PosSmall(q, qt) \cup NxSmall(q, qt)
+                   \cup (IF tcpAttempt THEN {} ELSE {Exc("Truncated")})
 GOutClock(q, qt) == {Exc("Timeout"), Msg("SERVFAIL", <<>>, <<>>), Msg("NOERROR", Chain(q, qt, 0, <<5>>, 5), <<>>)}
 GAdvSmall(t, l) == AdvSmall(t, l)
 GAdvMid(t, l) == AdvMid(t, l)
